@@ -994,9 +994,11 @@ func (t *txattrwalk) handle(cs *connState) message {
 			return linux.EINVAL
 		}
 		size = len(buf)
+		ref.IncRef() // Held by newRef.xattrSrc, which borrows ref.file.
 		newRef := &fidRef{
-			server: cs.server,
-			file:   ref.file,
+			server:   cs.server,
+			file:     ref.file,
+			xattrSrc: ref,
 			pendingXattr: pendingXattr{
 				op:   xattrWalk,
 				name: t.Name,
